@@ -227,3 +227,25 @@ func EncryptJWE(key []byte, extraHdr map[string]any, plaintext []byte, deflate b
 	m.Write(al)
 	return hs + ".." + b64u(iv) + "." + b64u(ct) + "." + b64u(m.Sum(nil)[:16])
 }
+
+// EncryptJWEGCM builds a compact JWE with alg=dir and an AES-GCM content encryption
+// (enc = A128GCM / A256GCM by key length) for tokens that must be refused.
+func EncryptJWEGCM(key []byte, enc string, plaintext []byte) string {
+	hdr, _ := json.Marshal(map[string]any{"alg": "dir", "enc": enc, "cty": "JWT"})
+	h64 := b64u(hdr)
+	blk, err := aes.NewCipher(key)
+	if err != nil {
+		return "gcm-key-error"
+	}
+	g, err := cipher.NewGCM(blk)
+	if err != nil {
+		return "gcm-error"
+	}
+	iv := make([]byte, 12)
+	for i := range iv {
+		iv[i] = byte(i*7 + 1)
+	}
+	sealed := g.Seal(nil, iv, plaintext, []byte(h64))
+	ct, tag := sealed[:len(sealed)-16], sealed[len(sealed)-16:]
+	return h64 + ".." + b64u(iv) + "." + b64u(ct) + "." + b64u(tag)
+}
